@@ -53,41 +53,52 @@ theorem dispatch_columns :
 
 /-! ## T: theorems about the dispatcher -/
 
-/-- **Reading what the Writer emits rebuilds the file**: for every well-formed tree (valid records in Writer order:
-file header, standard / ADV batches, IAT batches, file control), followed by any number of all-9 filler records, the
-Reader returns exactly that tree — every record in the place it was written from — and no error unless the file
-control record itself fails validation. -/
-theorem read_emit (t : Tree) (ht : WFTree t) (n : Nat) :
-    read (emit t ++ List.replicate n .filler) = expected t := ReaderSM.read_emit t ht n
+/-- **Reading what the Writer emits rebuilds the file**: for every well-formed tree (records in Writer order: file
+header, standard / ADV batches, IAT batches, file control), every record validating, followed by any number of all-9
+filler records, the Reader returns exactly that tree — every record in the place it was written from — and no error
+unless the file control record itself fails validation (`vc`). -/
+theorem read_emit (t : Tree) (ht : WFTree t) (vc : Bits) (fill : List Bits) :
+    read (emitted t vc fill) = expected t vc := ReaderSM.read_emit t ht vc fill
 
 /-- in particular a file whose control validates is accepted, with or without its blocking filler -/
-theorem read_emit_accepted (t : Tree) (ht : WFTree t) (hc : controlValid t = true) (n : Nat) :
-    (read (emit t ++ List.replicate n .filler)).errs = [] := by
-  rw [ReaderSM.read_emit t ht n]; simp [expected, hc]
+theorem read_emit_accepted (t : Tree) (ht : WFTree t) (fill : List Bits) :
+    (read (emitted t Bits.all fill)).errs = [] := by
+  rw [ReaderSM.read_emit t ht Bits.all fill]
+  cases h : isADV t.batches <;> simp [expected, controlValid, Bits.all, h]
 
-/-- **No file control, no file**: whatever the records are, if none of them is a file control record the Reader
-reports `ErrFileControl` (default options). -/
-theorem read_without_control (rs : List Rec) (hrs : ∀ r ∈ rs, r.isFC = false) :
+/-- **No file control, no file**: whatever the records are and however they validate, if none of them is a file
+control record the Reader reports `ErrFileControl` (default options). -/
+theorem read_without_control (rs : List (Rec × Bits)) (hrs : ∀ r ∈ rs, r.1.isFC = false) :
     Err.missingControl ∈ (read rs).errs := ReaderSM.read_without_control rs hrs
 
 /-- **Truncation before the file control** (at a record boundary, or inside a record: `tail` is what is left of
 the cut record — its first column survives, so it is not a file control record) is rejected. -/
-theorem read_truncated_body (t : Tree) (ht : WFTree t) (j : Nat) (tail : List Rec) (htail : ∀ r ∈ tail, r.isFC = false) :
-    Err.missingControl ∈ (read ((body t).take j ++ tail)).errs := ReaderSM.read_truncated_body t ht j tail htail
+theorem read_truncated_body (t : Tree) (ht : WFTree t) (j : Nat) (vs : List Bits) (tail : List (Rec × Bits))
+    (htail : ∀ r ∈ tail, r.1.isFC = false) :
+    Err.missingControl ∈ (read (((body t).take j).zip vs ++ tail)).errs :=
+  ReaderSM.read_truncated_body t ht j vs tail htail
 
 /-- **Truncation inside the file control record**: the Reader returns the same tree with the cut control record in
-place of the original (and rejects the text unless that record validates) — see `C04.truncated_count_differs` and
-`C04.tamper_file_control_rejected` for what validation then does. -/
-theorem read_truncated_control (t : Tree) (ht : WFTree t) (ok okAdv : Bool) (id : Nat) :
-    read (body t ++ [.fc ok okAdv id]) = expected { t with control := .fc ok okAdv id } := by
-  have h := ReaderSM.read_emit { t with control := .fc ok okAdv id }
-    ⟨ht.header, ht.batches, ht.iatBatches, ⟨ok, okAdv, id, rfl⟩⟩ 0
-  simpa [emit_eq_body, body] using h
+place of the original (and rejects the text unless that record validates, `vc`) — see `C04.truncated_count_differs`
+and `C04.tamper_file_control_rejected` for what validation then does. -/
+theorem read_truncated_control (t : Tree) (ht : WFTree t) (id : Nat) (vc : Bits) :
+    read (allOK (body t) ++ [(.fc id, vc)]) = expected { t with control := .fc id } vc := by
+  have h := ReaderSM.read_emit { t with control := .fc id } ⟨ht.header, ht.batches, ht.iatBatches, ⟨id, rfl⟩⟩ vc []
+  simpa [emitted, body] using h
 
 /-- **Truncation inside the blocking filler**: a filler record cut after its first column reads as a second file
 control record and is refused; cut anywhere later it is still filler and `read_emit` applies. -/
-theorem read_truncated_filler (t : Tree) (ht : WFTree t) (n : Nat) (a b : Bool) (i : Nat) :
-    (read (emit t ++ List.replicate n .filler ++ [.fc a b i])).errs ≠ [] := ReaderSM.read_extra_control t ht n a b i
+theorem read_truncated_filler (t : Tree) (ht : WFTree t) (vc : Bits) (fill : List Bits) (i : Nat) (v : Bits) :
+    (read (emitted t vc fill ++ [(.fc i, v)])).errs ≠ [] := ReaderSM.read_extra_control t ht vc fill i v
+
+/-- **The Reader only relaxes** (C15 at the level of `Read`): a record sequence accepted under some outcomes of the
+record- and batch-level validations is accepted when more of them succeed and when a missing file header / control
+becomes allowed. -/
+theorem read_monotone (rs : List Rec) (vs ws : List Bits) (hv : vs.length = rs.length) (hw : ws.length = rs.length)
+    (hle : ∀ i (h1 : i < vs.length) (h2 : i < ws.length), Bits.le vs[i] ws[i])
+    (a b a' b' : Bool) (ha : a = true → a' = true) (hb : b = true → b' = true)
+    (h : (finish a b (run init (rs.zip vs))).errs = []) : (finish a' b' (run init (rs.zip ws))).errs = [] :=
+  ReaderSM.read_mono rs vs ws hv hw hle a b a' b' ha hb h
 
 /-! ## the emission order is the Writer model's (`Ach.Writer.emit`, tied to writer.go by the `write` stream) -/
 
@@ -154,7 +165,7 @@ theorem batches_kinds (bs : List TBatch) (h : ∀ b ∈ bs, WFBatch b) :
 
 theorem emit_kinds (t : Tree) (ht : WFTree t) : (emit t).map kindOf = Writer.emit (shape t) := by
   obtain ⟨hid, hh⟩ := ht.header
-  obtain ⟨ok, okAdv, cid, hc⟩ := ht.control
+  obtain ⟨cid, hc⟩ := ht.control
   simp only [emit, Writer.emit, shape, List.map_cons, List.map_append, hh, hc, kindOf, List.map_nil, List.flatMap_append,
     batches_kinds t.batches (fun b hb => (ht.batches b hb).2), batches_kinds t.iatBatches (fun b hb => (ht.iatBatches b hb).2)]
 
@@ -162,23 +173,26 @@ theorem emit_kinds (t : Tree) (ht : WFTree t) : (emit t).map kindOf = Writer.emi
 IAT batch with a three-addenda entry, control), read back by the executable model -/
 
 def demoTree : Tree :=
-  { header := .fh true 1,
-    batches := [⟨.std, .bh .std true true 2,
-      [⟨.ed true true false false 3, true, [(⟨1, true⟩, .ad (some ⟨1, true⟩) none true false false 4),
-                                            (⟨1, true⟩, .ad (some ⟨1, true⟩) none true false false 5)]⟩,
-       ⟨.ed false true false false 6, false, []⟩],
-      some (.bc true false true 7)⟩],
-    iatBatches := [⟨.iat, .bh .iat true true 8,
-      [⟨.ed true false false true 9, true, [(⟨0, false⟩, .ad none (some ⟨0, false⟩) false false true 10),
-                                            (⟨1, false⟩, .ad none (some ⟨1, false⟩) false false true 11),
-                                            (⟨7, true⟩, .ad none (some ⟨7, true⟩) false false true 12)]⟩],
-      some (.bc true false true 13)⟩],
-    control := .fc true false 14 }
+  { header := .fh 1,
+    batches := [⟨.std, .bh .std 2,
+      [⟨.ed true 3, true, [(⟨1, true⟩, .ad (some ⟨1, true⟩) none 4), (⟨1, true⟩, .ad (some ⟨1, true⟩) none 5)]⟩,
+       ⟨.ed false 6, false, []⟩],
+      some (.bc 7)⟩],
+    iatBatches := [⟨.iat, .bh .iat 8,
+      [⟨.ed true 9, true, [(⟨0, false⟩, .ad none (some ⟨0, false⟩) 10), (⟨1, false⟩, .ad none (some ⟨1, false⟩) 11),
+                           (⟨7, true⟩, .ad none (some ⟨7, true⟩) 12)]⟩],
+      some (.bc 13)⟩],
+    control := .fc 14 }
 
-example : read (emit demoTree ++ List.replicate 6 .filler) = expected demoTree ∧ (expected demoTree).errs = [] := by decide
+example : read (emitted demoTree Bits.all (List.replicate 6 Bits.all)) = expected demoTree Bits.all ∧
+    (expected demoTree Bits.all).errs = [] := by decide
+
+/-- the same records with one entry failing validation are rejected; `read_monotone`'s hypothesis is not vacuous -/
+example : (read ((emit demoTree).zip (List.replicate 14 Bits.all))).errs = [] ∧
+    (read ((emit demoTree).zip ((List.replicate 14 Bits.all).set 2 ⟨false, true, true, true⟩))).errs ≠ [] := by decide
 
 example : WFTree demoTree := by
-  refine ⟨⟨1, rfl⟩, ?_, ?_, ⟨true, false, 14, rfl⟩⟩
+  refine ⟨⟨1, rfl⟩, ?_, ?_, ⟨14, rfl⟩⟩
   · intro b hb
     simp only [demoTree, List.mem_singleton] at hb
     subst hb
